@@ -52,7 +52,16 @@ var pkgDirRe = regexp.MustCompile(`(?m)^//vf:pkg\s+(\S+)`)
 func tryReplay(eng *Engine, rep *FnReport, o *Obligation, r *Result, pid string) replayOutcome {
 	rf := &replayFile{Property: pid, Obligation: o.Name, Desc: o.Desc, Pos: o.Pos, Status: r.Status, SolverRuns: r.Tried, SolverOutput: trunc(r.Output, 6000), Model: r.Model}
 	out := replayOutcome{note: "no counter-model"}
-	if o.Replay != nil && r.Model != nil && len(o.GetVals) > 0 {
+	if o.Replay != nil && o.Replay.Driver == "" {
+		o.Replay = nil
+	}
+	if o.Replay != nil && len(o.Replay.Args) == 0 {
+		// a driver without parameters: a fixed scenario that exercises the failed clause on the real code
+		rf.Driver = o.Replay.Driver
+		runDriver(eng.root, rf)
+		out.reproduced = rf.Reproduced
+		out.note = rf.Note
+	} else if o.Replay != nil && r.Model != nil && len(o.GetVals) > 0 {
 		rf.Driver = o.Replay.Driver
 		rf.ArgExprs = o.Replay.Texts
 		ok := true
